@@ -334,9 +334,9 @@ int parse_instruction_pdk13(AsmContext *asm_context, char *instr)
             continue;
           }
 
-          if (operands[0].value < -512 || operands[0].value > 1024)
+          if (operands[0].value < -512 || operands[0].value > 1023)
           {
-            print_error_range(asm_context, "Literal", -512, 1024);
+            print_error_range(asm_context, "Literal", -512, 1023);
             return -1;
           }
 
